@@ -338,9 +338,10 @@ def translate_c(path):
     e_m, e_xm, e_xl = setvar(prog[2], "m"), setvar(prog[3], "xm"), setvar(prog[4], "xl")
     z1_init = lit(setvar(prog[5], "z1"), "initial z1")
     outer = prog[6]
-    _expect(outer[0] == "for" and outer[1] == ("set", ("var", "i"), ("int", 1))
-            and outer[2] == ("cmp", "<=", ("var", "i"), ("var", "m")) and outer[3] == ("inc", "i"),
-            "outer loop  for (i=1; i<=m; ++i)")
+    _expect(outer[0] == "for" and outer[1][:2] == ("set", ("var", "i")) and outer[1][2][0] == "int"
+            and outer[2][0] == "cmp" and outer[2][1] in ("<=", "<") and outer[2][2] == ("var", "i") and outer[2][3] == ("var", "m")
+            and outer[3] == ("inc", "i"),
+            "outer loop  for (i=<int>; i <=|< m; ++i)   [first value, comparison and bound are translated]")
     ob = outer[4]
     if len(ob) == 7 and ob[1][0] == "set" and ob[1][1] == ("var", "abszdiff") and ob[2][0] == "while":
         raise TranslateError("skeleton: Newton loop is  abszdiff = fabs(z-z1); while (abszdiff > EPS) {...}  -- the UNREPAIRED form "
@@ -351,14 +352,16 @@ def translate_c(path):
     e_cosarg = e_z[2]
     dw = ob[1]
     _expect(dw[0] == "do", "Newton loop is  do { ... } while (...)  [the repaired loop]; found %r" % (dw[0],))
-    _expect(dw[2] == ("cmp", ">", ("var", "abszdiff"), ("var", "EPS")), "loop condition abszdiff > EPS")
+    _expect(dw[2][0] == "cmp" and dw[2][2] == ("var", "abszdiff") and dw[2][3] == ("var", "EPS"),
+            "loop condition  abszdiff <op> EPS   [the operator is translated]")
     nb = dw[1]
     _expect(len(nb) == 7, "Newton body: p1, p2, for, pp, z1, z, abszdiff (found %d statements)" % len(nb))
     p1_init, p2_init = lit(setvar(nb[0], "p1"), "p1 init"), lit(setvar(nb[1], "p2"), "p2 init")
     inner = nb[2]
-    _expect(inner[0] == "for" and inner[1] == ("set", ("var", "j"), ("int", 1))
-            and inner[2] == ("cmp", "<=", ("var", "j"), ("var", "npts")) and inner[3] == ("inc", "j"),
-            "inner loop  for (j=1; j<=npts; ++j)")
+    _expect(inner[0] == "for" and inner[1][:2] == ("set", ("var", "j")) and inner[1][2][0] == "int"
+            and inner[2][0] == "cmp" and inner[2][1] in ("<=", "<") and inner[2][2] == ("var", "j") and inner[2][3] == ("var", "npts")
+            and inner[3] == ("inc", "j"),
+            "inner loop  for (j=<int>; j <=|< npts; ++j)   [first value, comparison and bound are translated]")
     ib = inner[4]
     _expect(len(ib) == 3 and ib[0] == ("set", ("var", "p3"), ("var", "p2")) and ib[1] == ("set", ("var", "p2"), ("var", "p1")),
             "recurrence shifts p3=p2; p2=p1;")
@@ -423,6 +426,24 @@ def translate_c(path):
     zhi = ty.zexpr(i_xhi, used)
     _expect(set(used) == {"npts", "i"}, "high index depends on npts and i")
     out.append(("gen_idx_hi", "(npts i : Z)", "Z", zhi, "F.idx_hi npts i", ["npts", "i"], "reflexivity."))
+    # ---- loop control (translated, not pinned): continuation test of the Newton loop, first values and trip counts
+    fcmp = {">": "(PrimFloat.ltb %(r)s %(l)s)", "<": "(PrimFloat.ltb %(l)s %(r)s)",
+            ">=": "(PrimFloat.leb %(r)s %(l)s)", "<=": "(PrimFloat.leb %(l)s %(r)s)"}
+    out.append(("gen_continue_newton", "(abszdiff : float)", "bool", fcmp[dw[2][1]] % {"l": "abszdiff", "r": "gen_EPS"},
+                "F.continue_newton abszdiff", ["abszdiff"], "reflexivity."))
+
+    def trips(loop, hi_term):
+        lo = loop[1][2][1]
+        n = "(Z.sub %s (%d)%%Z)" % (hi_term, lo)
+        return lo, ("(Z.add %s 1%%Z)" % n if loop[2][1] == "<=" else n)
+    lo_i, t_i = trips(outer, "(gen_m_of npts)")
+    lo_j, t_j = trips(inner, "npts")
+    const("I_FIRST", float(lo_i), "I_FIRST")
+    const("J_FIRST", float(lo_j), "J_FIRST")
+    out.append(("gen_outer_trips", "(npts : Z)", "Z", t_i, "F.outer_trips npts", ["npts"],
+                "unfold gen_outer_trips, gen_m_of, F.outer_trips, F.m_of. rewrite Z.quot_div_nonneg by lia. lia.", "(0 < npts)%Z"))
+    out.append(("gen_inner_trips", "(npts : Z)", "Z", t_j, "F.inner_trips npts", ["npts"],
+                "unfold gen_inner_trips, F.inner_trips. lia."))
     return out, {"EPS": EPS, "pi": PI}
 
 
@@ -451,7 +472,8 @@ def _dump(node):
 
 def _same(stmts, text, what):
     """the statements are, up to formatting/comments, the python text the model was written for"""
-    want = [_dump(n) for n in ast.parse(text).body]
+    import textwrap
+    want = [_dump(n) for n in ast.parse(textwrap.dedent(text)).body]
     got = [_dump(n) for n in stmts]
     if got != want:
         k = next((i for i, (a, b) in enumerate(zip(got, want)) if a != b), min(len(got), len(want)))
@@ -498,8 +520,206 @@ def _assign_value(st, target):
     return st.value
 
 
+_EXC = {"ValueError": "EValue", "IndexError": "EIndex", "TypeError": "EType", "RuntimeError": "ERuntime", "KeyError": "EKey"}
+_ZCMP = {ast.GtE: "(Z.leb %(r)s %(l)s)", ast.Gt: "(Z.ltb %(r)s %(l)s)", ast.Lt: "(Z.ltb %(l)s %(r)s)", ast.LtE: "(Z.leb %(l)s %(r)s)"}
+
+
+def _exc_class(node, what):
+    _expect(isinstance(node, ast.Raise) and isinstance(node.exc, ast.Call) and isinstance(node.exc.func, ast.Name)
+            and node.exc.func.id in _EXC, "%s: raise <known exception class>(...)" % what)
+    return _EXC[node.exc.func.id]
+
+
+def _zexpr_py(e, names):
+    """python int expression over the given names -> Gallina Z term"""
+    k = ast.unparse(e).replace(" ", "")
+    if k in names:
+        return names[k]
+    if isinstance(e, ast.Constant) and type(e.value) is int:
+        return "(%d)%%Z" % e.value
+    if isinstance(e, ast.BinOp) and type(e.op) in (ast.Add, ast.Sub):
+        return "(%s %s %s)" % ("Z.add" if isinstance(e.op, ast.Add) else "Z.sub", _zexpr_py(e.left, names), _zexpr_py(e.right, names))
+    raise TranslateError("python: int expression %r is not in the translated subset" % ast.unparse(e))
+
+
+class QState:
+    """symbolic execution of the QGauss methods that touch the cached rule (setup, __init__, the prologue of the
+    integrators) into a Gallina term over the model's state record {st_npts; st_rule}.  Subset: `if X is not None:`,
+    `if self.npts != X:`, `if self.npts is None: raise E(..)`, `self.npts = X`, `self.xxi = None` / `self.wii = None`
+    (together: no rule), `self.xxi, self.wii = gauleg(a, b, self.npts)`, `self.setup(npts=X)`, ignorable `self.f2 = None`."""
+
+    def __init__(self):
+        self.std = None          # the interval literals passed to gauleg
+
+    @staticmethod
+    def rec(npts, rule):
+        return "{| st_npts := %s; st_rule := %s |}" % (npts, rule)
+
+    def block(self, stmts, st, env, rest):
+        """st = (npts term : option Z, rule term : option T); env: python name -> ('opt', term) | ('z', term);
+        rest(st) -> Gallina term for what follows"""
+        if not stmts:
+            return rest(st)
+        h, t = stmts[0], stmts[1:]
+        cont = lambda st2: self.block(t, st2, env, rest)        # noqa: E731
+        if isinstance(h, ast.If) and not h.orelse:
+            c = h.test
+            if (isinstance(c, ast.Compare) and len(c.ops) == 1 and isinstance(c.ops[0], ast.IsNot) and isinstance(c.left, ast.Name)
+                    and isinstance(c.comparators[0], ast.Constant) and c.comparators[0].value is None):
+                v = c.left.id
+                _expect(env.get(v, ("", ""))[0] == "opt", "`%s is not None` on an optional argument" % v)
+                env2 = dict(env)
+                env2[v] = ("z", v + "_v")
+                return "(match %s with Some %s_v => %s | None => %s end)" % (
+                    env[v][1], v, self.block(h.body, st, env2, cont), cont(st))
+            if (isinstance(c, ast.Compare) and len(c.ops) == 1 and isinstance(c.ops[0], (ast.NotEq, ast.Eq))
+                    and ast.unparse(c.left) == "self.npts" and isinstance(c.comparators[0], ast.Name)):
+                v = c.comparators[0].id
+                _expect(env.get(v, ("", ""))[0] == "z", "`self.npts != %s` with %s known to be an int here" % (v, v))
+                eq = "(py_eq_optZ %s %s)" % (st[0], env[v][1])
+                test = "(negb %s)" % eq if isinstance(c.ops[0], ast.NotEq) else eq
+                return "(if %s then %s else %s)" % (test, self.block(h.body, st, env, cont), cont(st))
+            if (isinstance(c, ast.Compare) and len(c.ops) == 1 and isinstance(c.ops[0], ast.Is) and ast.unparse(c.left) == "self.npts"
+                    and isinstance(c.comparators[0], ast.Constant) and c.comparators[0].value is None and len(h.body) == 1):
+                e = _exc_class(h.body[0], "guard on self.npts")
+                return "(match %s with None => (%s, Some %s) | Some _ => %s end)" % (st[0], self.rec(*st), e, cont(st))
+            raise TranslateError("python: condition %r is not in the translated subset" % ast.unparse(c))
+        if isinstance(h, ast.Assign) and len(h.targets) == 1:
+            tg = ast.unparse(h.targets[0])
+            if tg == "self.npts":
+                if isinstance(h.value, ast.Constant) and h.value.value is None:
+                    return cont(("None", st[1]))
+                _expect(isinstance(h.value, ast.Name) and env.get(h.value.id, ("", ""))[0] == "z", "self.npts = <int argument>")
+                return cont(("(Some %s)" % env[h.value.id][1], st[1]))
+            if tg in ("self.xxi", "self.wii") and isinstance(h.value, ast.Constant) and h.value.value is None:
+                self.cleared = getattr(self, "cleared", set()) | {tg}
+                return cont((st[0], "None") if self.cleared == {"self.xxi", "self.wii"} else st)
+            if tg == "self.f2" and isinstance(h.value, ast.Constant) and h.value.value is None:
+                return cont(st)                       # attribute never read
+            if tg == "(self.xxi, self.wii)" or tg == "self.xxi, self.wii":
+                v = h.value
+                _expect(isinstance(v, ast.Call) and isinstance(v.func, ast.Name) and v.func.id == "gauleg" and len(v.args) == 3
+                        and not v.keywords and ast.unparse(v.args[2]) == "self.npts", "self.xxi, self.wii = gauleg(a, b, self.npts)")
+                lits = []
+                for a in v.args[:2]:
+                    neg = isinstance(a, ast.UnaryOp) and isinstance(a.op, ast.USub)
+                    c0 = a.operand if neg else a
+                    _expect(isinstance(c0, ast.Constant) and type(c0.value) in (int, float), "gauleg interval literal")
+                    lits.append(-float(c0.value) if neg else float(c0.value))
+                self.std = tuple(lits)
+                _expect(st[0].startswith("(Some "), "self.npts is a known int when gauleg is called")
+                k = st[0][len("(Some "):-1]
+                return "(match G %s with Ok r => %s | Err e => (%s, Some e) end)" % (k, cont((st[0], "(Some r)")), self.rec(*st))
+        if (isinstance(h, ast.Expr) and isinstance(h.value, ast.Call) and ast.unparse(h.value.func) == "self.setup"
+                and not h.value.args and len(h.value.keywords) == 1 and h.value.keywords[0].arg == "npts"
+                and isinstance(h.value.keywords[0].value, ast.Name)):
+            v = h.value.keywords[0].value.id
+            _expect(env.get(v, ("", ""))[0] == "opt", "self.setup(npts=<optional argument>)")
+            return ("(match gen_setup G %s %s with (st1, Some e) => (st1, Some e) | (st1, None) => %s end)"
+                    % (self.rec(*st), env[v][1], self.block(t, ("(st_npts st1)", "(st_rule st1)"), env, rest)))
+        raise TranslateError("python: statement %r is not in the translated subset (object state)" % ast.unparse(h)[:70])
+
+
+def translate_py_state(tree, out_raw):
+    """QGauss.setup / __init__ / integrate / integrate_func+integrate_data prologues / qgauss -> Gallina, with ties"""
+    done = lambda st: "(%s, None)" % QState.rec(*st)     # noqa: E731
+    auto = ("intros; cbv beta delta [gen_setup gen_init gen_prologue_func gen_prologue_data setup q_init q_prologue q_none "
+            "py_eq_optZ same_npts] ; repeat (match goal with |- context [match ?x with _ => _ end] => destruct x end; cbn); reflexivity.")
+    # setup
+    f = _func(tree, "QGauss", "setup")
+    _expect([a.arg for a in f.args.args] == ["self", "npts"] and len(f.args.defaults) == 1
+            and isinstance(f.args.defaults[0], ast.Constant) and f.args.defaults[0].value is None, "setup(self, npts=None)")
+    q = QState()
+    term = q.block(_nodoc(f.body), ("(st_npts st)", "(st_rule st)"), {"npts": ("opt", "npts")}, done)
+    _expect(q.std is not None, "setup calls gauleg")
+    out_raw.append({"def": "Definition gen_setup {T : Type} (G : Z -> result T) (st : @qstate T) (npts : option Z) : @qstate T * option err := %s." % term,
+                    "stmt": "forall (T : Type) (G : Z -> result T) st npts, gen_setup G st npts = setup G st npts",
+                    "proof": "intros T G [sn sr] npts; destruct npts as [n|]; [|reflexivity]; unfold gen_setup, setup, py_eq_optZ, same_npts; cbn; "
+                             "destruct sn as [k|]; [destruct (Z.eqb k n)|]; cbn; try reflexivity; destruct (G n); reflexivity.",
+                    "what": "gen_setup = setup (QGauss.setup, statement by statement)"})
+    out_raw.append({"def": "Definition gen_STD : float * float := (%s, %s)." % (fl(q.std[0]), fl(q.std[1])),
+                    "stmt": "gen_STD = (F.STD_A, F.STD_B)", "proof": "reflexivity.", "what": "gen_STD = (F.STD_A, F.STD_B)"})
+    # __init__
+    f = _func(tree, "QGauss", "__init__")
+    _expect([a.arg for a in f.args.args] == ["self", "npts"] and len(f.args.defaults) == 1
+            and isinstance(f.args.defaults[0], ast.Constant) and f.args.defaults[0].value is None, "__init__(self, npts=None)")
+    q = QState()
+    term = q.block(_nodoc(f.body), ("UNSET", "UNSET"), {"npts": ("opt", "npts")}, done)
+    _expect("UNSET" not in term, "__init__ initialises self.npts, self.xxi and self.wii before anything reads them")
+    out_raw.append({"def": "Definition gen_init {T : Type} (G : Z -> result T) (npts : option Z) : @qstate T * option err := %s." % term,
+                    "stmt": "forall (T : Type) (G : Z -> result T) npts, gen_init G npts = q_init G npts",
+                    "proof": "intros T G npts; unfold gen_init, q_init, q_none, gen_setup, setup, py_eq_optZ, same_npts; destruct npts as [n|]; cbn; "
+                             "[destruct (G n); reflexivity | reflexivity].",
+                    "what": "gen_init = q_init (QGauss.__init__)"})
+    # prologues of the two integrators
+    for meth, nm in (("integrate_func", "gen_prologue_func"), ("integrate_data", "gen_prologue_data")):
+        f = _func(tree, "QGauss", meth)
+        _expect([a.arg for a in f.args.args][0] == "self" and [a.arg for a in f.args.args][-1] == "npts" and len(f.args.defaults) == 1
+                and isinstance(f.args.defaults[0], ast.Constant) and f.args.defaults[0].value is None, "%s(self, .., npts=None)" % meth)
+        q = QState()
+        term = q.block(_nodoc(f.body)[:2], ("(st_npts st)", "(st_rule st)"), {"npts": ("opt", "npts")}, done)
+        out_raw.append({"def": "Definition %s {T : Type} (G : Z -> result T) (st : @qstate T) (npts : option Z) : @qstate T * option err := %s." % (nm, term),
+                        "stmt": "forall (T : Type) (G : Z -> result T) st npts, %s G st npts = q_prologue G st npts" % nm,
+                        "proof": "intros T G [sn sr] npts; unfold %s, q_prologue, gen_setup, setup, py_eq_optZ, same_npts; destruct npts as [n|]; cbn; "
+                                 "[destruct sn as [k|]; [destruct (Z.eqb k n)|]; cbn; try reflexivity; destruct (G n); reflexivity | destruct sn; reflexivity]." % nm,
+                        "what": "%s = q_prologue (QGauss.%s: setup, then ValueError without a count)" % (nm, meth)})
+    # integrate: dispatch and forwarding of npts
+    f = _func(tree, "QGauss", "integrate")
+    _expect([a.arg for a in f.args.args] == ["self", "xvals", "yvals_or_func", "npts"] and len(f.args.defaults) == 1
+            and isinstance(f.args.defaults[0], ast.Constant) and f.args.defaults[0].value is None, "integrate(self, xvals, yvals_or_func, npts=None)")
+    b = _nodoc(f.body)
+    _expect(len(b) == 1 and isinstance(b[0], ast.If) and len(b[0].body) == 1 and len(b[0].orelse) == 1
+            and isinstance(b[0].body[0], ast.Return) and isinstance(b[0].orelse[0], ast.Return), "integrate: if <test>: return .. else: return ..")
+    t = b[0].test
+    _expect(isinstance(t, ast.Call) and isinstance(t.func, ast.Name) and t.func.id == "callable" and len(t.args) == 1
+            and ast.unparse(t.args[0]) == "yvals_or_func", "dispatch test is callable(yvals_or_func)")
+
+    def route(call):
+        _expect(isinstance(call, ast.Call) and ast.unparse(call.func) in ("self.integrate_func", "self.integrate_data")
+                and [ast.unparse(a) for a in call.args[:2]] == ["xvals", "yvals_or_func"], "return self.integrate_*(xvals, yvals_or_func, ..)")
+        r = "RFunc" if call.func.attr == "integrate_func" else "RData"
+        third = None
+        if len(call.args) == 3:
+            third = ast.unparse(call.args[2])
+        for kw in call.keywords:
+            if kw.arg == "npts":
+                third = ast.unparse(kw.value)
+        _expect(third in (None, "npts") and len(call.args) <= 3, "third argument is npts or omitted")
+        return "(%s, %s)" % (r, "npts" if third == "npts" else "@None Z")
+    term = "(if is_callable k then %s else %s)" % (route(b[0].body[0].value), route(b[0].orelse[0].value))
+    out_raw.append({"def": "Definition gen_integrate_route (k : ykind) (npts : option Z) : route * option Z := %s." % term,
+                    "stmt": "forall k npts, gen_integrate_route k npts = (dispatch false k, npts)",
+                    "proof": "intros k npts; unfold gen_integrate_route, dispatch; destruct (is_callable k); reflexivity.",
+                    "what": "gen_integrate_route = (dispatch, npts forwarded) (QGauss.integrate)"})
+    # qgauss(x, y, npts): the count goes to the constructor, the call passes none
+    f = _func(tree, None, "qgauss")
+    _expect([a.arg for a in f.args.args] == ["x", "y", "npts"] and not f.args.defaults, "qgauss(x, y, npts)")
+    b = _nodoc(f.body)
+    _expect(len(b) == 2 and isinstance(b[0], ast.Assign) and isinstance(b[0].value, ast.Call) and ast.unparse(b[0].value.func) == "QGauss"
+            and isinstance(b[1], ast.Return) and isinstance(b[1].value, ast.Call)
+            and ast.unparse(b[1].value.func) == ast.unparse(b[0].targets[0]) + ".integrate"
+            and [ast.unparse(a) for a in b[1].value.args[:2]] == ["x", "y"], "qgauss: obj = QGauss(..); return obj.integrate(x, y, ..)")
+
+    def count_of(call, pos):
+        v = None
+        if len(call.args) > pos:
+            v = ast.unparse(call.args[pos])
+        for kw in call.keywords:
+            if kw.arg == "npts":
+                v = ast.unparse(kw.value)
+        _expect(v in (None, "npts"), "count argument is npts or omitted")
+        return "npts" if v == "npts" else "@None Z"
+    term = "(%s, %s)" % (count_of(b[0].value, 0), count_of(b[1].value, 2))
+    out_raw.append({"def": "Definition gen_qgauss_counts (npts : option Z) : option Z * option Z := %s." % term,
+                    "stmt": "forall (T Arg Out : Type) (G : Z -> result T) (I : T -> Arg -> result Out) npts a, qgauss_fn G I npts a = "
+                            "match q_init G (fst (gen_qgauss_counts npts)) with (_, Some e) => Err e "
+                            "| (st, None) => snd (q_integrate G I st (snd (gen_qgauss_counts npts)) a) end",
+                    "proof": "intros; reflexivity.", "what": "qgauss_fn = QGauss(count).integrate(.., no count) with gen_qgauss_counts (qgauss)"})
+
+
 def translate_py(util_path, stat_path):
     out = []
+    out_raw = RAW
     tree = ast.parse(open(util_path).read())
 
     def fdef(name, args, names, e, model):
@@ -509,163 +729,193 @@ def translate_py(util_path, stat_path):
         out.append(("gen_" + name, " ".join("(%s : float)" % a for a in args), "float", term,
                     "F.%s %s" % (model, " ".join(args)), args, "reflexivity."))
 
-    # ---- gauleg(x1, x2, npts): argument check, call of the extension
-    g = _func(tree, None, "gauleg")
-    _expect([a.arg for a in g.args.args] == ["x1", "x2", "npts"], "gauleg(x1, x2, npts)")
-    _same(_nodoc(g.body), """
-if have_cgauleg:
-    if npts <= 0:
-        raise ValueError("npts should be > 0, got %s" % npts)
-    x, w = _cgauleg.cgauleg(x1, x2, npts)
-else:
-    raise ValueError("gauleg C++ extension not found")
-return x, w
-""", "gauleg wrapper")
-    test = _nodoc(g.body)[0].body[0].test
-    _expect(isinstance(test, ast.Compare) and len(test.ops) == 1 and isinstance(test.ops[0], ast.LtE)
-            and isinstance(test.left, ast.Name) and test.left.id == "npts"
-            and isinstance(test.comparators[0], ast.Constant) and type(test.comparators[0].value) is int, "npts <= <int>")
-    out.append(("gen_reject_npts", "(npts : Z)", "bool", "(Z.leb npts (%d)%%Z)" % test.comparators[0].value,
-                "F.reject_npts npts", ["npts"], "reflexivity."))
+    def _sec0():
+        # ---- gauleg(x1, x2, npts): argument check, call of the extension
+        g = _func(tree, None, "gauleg")
+        _expect([a.arg for a in g.args.args] == ["x1", "x2", "npts"], "gauleg(x1, x2, npts)")
+        _same(_nodoc(g.body), """
+    if have_cgauleg:
+        if npts <= 0:
+            raise ValueError("npts should be > 0, got %s" % npts)
+        x, w = _cgauleg.cgauleg(x1, x2, npts)
+    else:
+        raise ValueError("gauleg C++ extension not found")
+    return x, w
+    """, "gauleg wrapper")
+        test = _nodoc(g.body)[0].body[0].test
+        _expect(isinstance(test, ast.Compare) and len(test.ops) == 1 and isinstance(test.ops[0], ast.LtE)
+                and isinstance(test.left, ast.Name) and test.left.id == "npts"
+                and isinstance(test.comparators[0], ast.Constant) and type(test.comparators[0].value) is int, "npts <= <int>")
+        out.append(("gen_reject_npts", "(npts : Z)", "bool", "(Z.leb npts (%d)%%Z)" % test.comparators[0].value,
+                    "F.reject_npts npts", ["npts"], "reflexivity."))
 
-    # ---- qgauss, QGauss.__init__, setup, integrate: pinned skeletons (the cache state machine of Model.v)
-    _same(_nodoc(_func(tree, None, "qgauss").body), "qg = QGauss(npts)\nreturn qg.integrate(x, y)\n", "qgauss")
-    _same(_nodoc(_func(tree, "QGauss", "__init__").body),
-          "self.npts = None\nself.xxi = None\nself.wii = None\nself.f2 = None\nself.setup(npts=npts)\n", "QGauss.__init__")
-    _same(_nodoc(_func(tree, "QGauss", "setup").body), """
-if npts is not None:
-    if self.npts != npts:
-        self.npts = npts
-        self.xxi, self.wii = gauleg(-1.0, 1.0, self.npts)
-""", "QGauss.setup")
-    _same(_nodoc(_func(tree, "QGauss", "integrate").body), """
-if callable(yvals_or_func):
-    return self.integrate_func(xvals, yvals_or_func, npts)
-else:
-    return self.integrate_data(xvals, yvals_or_func, npts)
-""", "QGauss.integrate (dispatch on callable(): the repaired form)")
+    _section('gauleg wrapper', _sec0)
 
-    # ---- QGauss.integrate_func
-    f = _nodoc(_func(tree, "QGauss", "integrate_func").body)
-    _expect(len(f) == 12, "QGauss.integrate_func has 12 statements (found %d)" % len(f))
-    _same(f[:5], """
-self.setup(npts=npts)
-if self.npts is None:
-    raise ValueError("Set npts on construction or in this call")
-if len(xvals) != 2:
-    raise ValueError("When integrating a function, send the " "x range [xmin,xmax] ")
-x1 = float(xvals[0])
-x2 = float(xvals[1])
-""", "QGauss.integrate_func (prologue; range ends converted to python floats)")
-    fdef("f1_of", ["x1", "x2"], {"x1": "x1", "x2": "x2"}, _assign_value(f[5], "f1"), "f1_of")
-    fdef("f2_of", ["x1", "x2"], {"x1": "x1", "x2": "x2"}, _assign_value(f[6], "f2"), "f2_of")
-    fdef("xi_of", ["xxi", "f1", "f2"], {"self.xxi": "xxi", "f1": "f1", "f2": "f2"}, _assign_value(f[7], "xi"), "xi_of")
-    _same(f[8:9], "yvals = func(xi)\n", "yvals = func(xi)")
-    fdef("integrand_of", ["yvals", "wii"], {"yvals": "yvals", "self.wii": "wii"}, _assign_value(f[9], "integrand"), "integrand_of")
-    _same(f[10:11], "isum = integrand.sum()\n", "isum = integrand.sum()")
-    _expect(isinstance(f[11], ast.Return), "return f1 * isum")
-    fdef("result_of", ["f1", "isum"], {"f1": "f1", "isum": "isum"}, f[11].value, "result_of")
+    def _sec1():
+        # ---- qgauss, QGauss.__init__, setup, integrate and the integrators' prologues: TRANSLATED (translate_py_state)
+        translate_py_state(tree, out_raw)
+        out.append(("gen_REJECT_ERR", "", "err", _exc_class(_nodoc(_func(tree, None, "gauleg").body)[0].body[0].body[0], "gauleg wrapper"), "F.REJECT_ERR", [], "reflexivity."))
 
-    # ---- QGauss.integrate_data
-    d = _nodoc(_func(tree, "QGauss", "integrate_data").body)
-    _expect(len(d) == 13, "QGauss.integrate_data has 13 statements (found %d)" % len(d))
-    _same(d[:6], """
-self.setup(npts=npts)
-if self.npts is None:
-    raise ValueError("Set npts on construction or in this call")
-xvals = numpy.asarray(xvals, dtype="f8")
-yvals = numpy.asarray(yvals, dtype="f8")
-x1 = xvals.min()
-x2 = xvals.max()
-""", "QGauss.integrate_data (prologue; tables converted to float64)")
-    d = d[:4] + d[6:]
-    fdef("data_f1_of", ["x1", "x2"], {"x1": "x1", "x2": "x2"}, _assign_value(d[4], "f1"), "f1_of")
-    fdef("data_f2_of", ["x1", "x2"], {"x1": "x1", "x2": "x2"}, _assign_value(d[5], "f2"), "f2_of")
-    fdef("data_xi_of", ["xxi", "f1", "f2"], {"self.xxi": "xxi", "f1": "f1", "f2": "f2"}, _assign_value(d[6], "xi"), "xi_of")
-    _same(d[7:8], "yi = stat.interplin(yvals, xvals, xi)\n", "yi = stat.interplin(yvals, xvals, xi)")
-    fdef("data_integrand_of", ["yvals", "wii"], {"yi": "yvals", "self.wii": "wii"}, _assign_value(d[8], "integrand"), "integrand_of")
-    _same(d[9:10], "isum = integrand.sum()\n", "isum = integrand.sum()")
-    _expect(isinstance(d[10], ast.Return), "return f1 * isum")
-    fdef("data_result_of", ["f1", "isum"], {"f1": "f1", "isum": "isum"}, d[10].value, "result_of")
+    _section('QGauss state methods', _sec1)
 
-    # ---- QGauss2
-    _same(_nodoc(_func(tree, "QGauss2", "__init__").body), "self.nx = nx\nself.ny = ny\nself._setup()\n", "QGauss2.__init__")
-    s = _nodoc(_func(tree, "QGauss2", "_setup").body)
-    _expect(len(s) == 8, "QGauss2._setup has 8 statements (found %d)" % len(s))
-    _same(s[:5], """
-from numpy import ones, newaxis, meshgrid
-nx, ny = self.nx, self.ny
-x, wx = gauleg(-1.0, 1.0, nx)
-y, wy = gauleg(-1.0, 1.0, ny)
-self.xgrid, self.ygrid = meshgrid(x, y)
-""", "QGauss2._setup (rules and mesh: rows over y, columns over x)")
-    names = {"ones((ny,nx))": "one", "wx[newaxis,:]": "wxj", "wy[:,newaxis]": "wyi"}
-    pe = PyExpr(names)
-    u1, u2 = [], []
-    t_wx = pe.tr(_assign_value(s[5], "wxgrid"), u1)
-    t_wy = pe.tr(_assign_value(s[6], "wygrid"), u2)
-    _expect(sorted(u1) == ["one", "wxj"] and sorted(u2) == ["one", "wyi"],
-            "weight grids are ones((ny, nx)) * wx[newaxis, :] and ones((ny, nx)) * wy[:, newaxis] (shape of the mesh)")
-    u3 = []
-    t_w = PyExpr({"wxgrid": "WX", "wygrid": "WY"}).tr(_assign_value(s[7], "self.wgrid"), u3)
-    _expect(sorted(u3) == ["WX", "WY"], "self.wgrid = wxgrid * wygrid")
-    one = fl(1.0)
-    term = t_w.replace("WX", t_wx).replace("WY", t_wy).replace("one", one)
-    out.append(("gen_wgrid_of", "(wxj : float) (wyi : float)", "float", term, "F.wgrid_of wxj wyi", ["wxj", "wyi"], "reflexivity."))
+    def _sec2():
+        # ---- QGauss.integrate_func
+        f = _nodoc(_func(tree, "QGauss", "integrate_func").body)
+        _expect(len(f) == 12, "QGauss.integrate_func has 12 statements (found %d)" % len(f))
+        _same(f[2:5], """
+    if len(xvals) != 2:
+        raise ValueError("When integrating a function, send the " "x range [xmin,xmax] ")
+    x1 = float(xvals[0])
+    x2 = float(xvals[1])
+    """, "QGauss.integrate_func (prologue; range ends converted to python floats)")
+        fdef("f1_of", ["x1", "x2"], {"x1": "x1", "x2": "x2"}, _assign_value(f[5], "f1"), "f1_of")
+        fdef("f2_of", ["x1", "x2"], {"x1": "x1", "x2": "x2"}, _assign_value(f[6], "f2"), "f2_of")
+        fdef("xi_of", ["xxi", "f1", "f2"], {"self.xxi": "xxi", "f1": "f1", "f2": "f2"}, _assign_value(f[7], "xi"), "xi_of")
+        _same(f[8:9], "yvals = func(xi)\n", "yvals = func(xi)")
+        fdef("integrand_of", ["yvals", "wii"], {"yvals": "yvals", "self.wii": "wii"}, _assign_value(f[9], "integrand"), "integrand_of")
+        _same(f[10:11], "isum = integrand.sum()\n", "isum = integrand.sum()")
+        _expect(isinstance(f[11], ast.Return), "return f1 * isum")
+        fdef("result_of", ["f1", "isum"], {"f1": "f1", "isum": "isum"}, f[11].value, "result_of")
 
-    q = _nodoc(_func(tree, "QGauss2", "integrate_func").body)
-    _expect(len(q) == 15, "QGauss2.integrate_func has 15 statements (found %d)" % len(q))
-    _same(q[:5], """
-if len(xrng) != 2 or len(yrng) != 2:
-    raise ValueError("xrng and yrng should be 2-element")
-x1 = float(xrng[0])
-x2 = float(xrng[1])
-y1 = float(yrng[0])
-y2 = float(yrng[1])
-""", "QGauss2.integrate_func (prologue; range ends converted to python floats)")
-    fdef("xf1_of", ["x1", "x2"], {"x1": "x1", "x2": "x2"}, _assign_value(q[5], "xf1"), "xf1_of")
-    fdef("xf2_of", ["x1", "x2"], {"x1": "x1", "x2": "x2"}, _assign_value(q[6], "xf2"), "xf2_of")
-    fdef("yf1_of", ["x1", "x2"], {"y1": "x1", "y2": "x2"}, _assign_value(q[7], "yf1"), "xf1_of")
-    fdef("yf2_of", ["x1", "x2"], {"y1": "x1", "y2": "x2"}, _assign_value(q[8], "yf2"), "xf2_of")
-    fdef("xgrid_of", ["g", "f1", "f2"], {"self.xgrid": "g", "xf1": "f1", "xf2": "f2"}, _assign_value(q[9], "xgrid"), "grid_of")
-    fdef("ygrid_of", ["g", "f1", "f2"], {"self.ygrid": "g", "yf1": "f1", "yf2": "f2"}, _assign_value(q[10], "ygrid"), "grid_of")
-    _same(q[11:12], "zvals = func(xgrid, ygrid)\n", "zvals = func(xgrid, ygrid)")
-    fdef("integrand2_of", ["yvals", "wii"], {"zvals": "yvals", "self.wgrid": "wii"}, _assign_value(q[12], "integrand"), "integrand_of")
-    _same(q[13:14], "isum = integrand.sum()\n", "isum = integrand.sum()")
-    _expect(isinstance(q[14], ast.Return), "return xf1 * yf1 * isum")
-    fdef("result2_of", ["xf1", "yf1", "isum"], {"xf1": "xf1", "yf1": "yf1", "isum": "isum"}, q[14].value, "result2_of")
+    _section('QGauss.integrate_func', _sec2)
 
-    # ---- stat.interplin
-    st = ast.parse(open(stat_path).read())
-    ip = _nodoc(_func(st, None, "interplin").body)
-    _expect(len(ip) == 10, "interplin has 10 statements (found %d)" % len(ip))
-    _same(ip[:9], """
-v = np.atleast_1d(vin)
-x = np.atleast_1d(xin)
-u = np.atleast_1d(uin)
-xm = x.searchsorted(u) - 1
-(w,) = np.where(xm >= (x.size - 1))
-if w.size > 0:
-    xm[w] = x.size - 2
-(w,) = np.where(xm < 0)
-if w.size > 0:
-    xm[w] = 0
-xmp1 = xm + 1
-""", "interplin (index selection)")
-    _expect(isinstance(ip[9], ast.Return), "interplin returns the chord formula")
-    fdef("interp_formula", ["u", "x_m", "x_p", "v_m", "v_p"],
-         {"u": "u", "x[xm]": "x_m", "x[xmp1]": "x_p", "v[xm]": "v_m", "v[xmp1]": "v_p"}, ip[9].value, "interp_formula")
+    def _sec3():
+        # ---- QGauss.integrate_data
+        d = _nodoc(_func(tree, "QGauss", "integrate_data").body)
+        _expect(len(d) == 13, "QGauss.integrate_data has 13 statements (found %d)" % len(d))
+        _same(d[2:6], """
+    xvals = numpy.asarray(xvals, dtype="f8")
+    yvals = numpy.asarray(yvals, dtype="f8")
+    x1 = xvals.min()
+    x2 = xvals.max()
+    """, "QGauss.integrate_data (prologue; tables converted to float64)")
+        d = d[:4] + d[6:]
+        fdef("data_f1_of", ["x1", "x2"], {"x1": "x1", "x2": "x2"}, _assign_value(d[4], "f1"), "f1_of")
+        fdef("data_f2_of", ["x1", "x2"], {"x1": "x1", "x2": "x2"}, _assign_value(d[5], "f2"), "f2_of")
+        fdef("data_xi_of", ["xxi", "f1", "f2"], {"self.xxi": "xxi", "f1": "f1", "f2": "f2"}, _assign_value(d[6], "xi"), "xi_of")
+        _same(d[7:8], "yi = stat.interplin(yvals, xvals, xi)\n", "yi = stat.interplin(yvals, xvals, xi)")
+        fdef("data_integrand_of", ["yvals", "wii"], {"yi": "yvals", "self.wii": "wii"}, _assign_value(d[8], "integrand"), "integrand_of")
+        _same(d[9:10], "isum = integrand.sum()\n", "isum = integrand.sum()")
+        _expect(isinstance(d[10], ast.Return), "return f1 * isum")
+        fdef("data_result_of", ["f1", "isum"], {"f1": "f1", "isum": "isum"}, d[10].value, "result_of")
+
+    _section('QGauss.integrate_data', _sec3)
+
+    def _sec4():
+        # ---- QGauss2
+        _same(_nodoc(_func(tree, "QGauss2", "__init__").body), "self.nx = nx\nself.ny = ny\nself._setup()\n", "QGauss2.__init__")
+        s = _nodoc(_func(tree, "QGauss2", "_setup").body)
+        _expect(len(s) == 8, "QGauss2._setup has 8 statements (found %d)" % len(s))
+        _same(s[:5], """
+    from numpy import ones, newaxis, meshgrid
+    nx, ny = self.nx, self.ny
+    x, wx = gauleg(-1.0, 1.0, nx)
+    y, wy = gauleg(-1.0, 1.0, ny)
+    self.xgrid, self.ygrid = meshgrid(x, y)
+    """, "QGauss2._setup (rules and mesh: rows over y, columns over x)")
+        names = {"ones((ny,nx))": "one", "wx[newaxis,:]": "wxj", "wy[:,newaxis]": "wyi"}
+        pe = PyExpr(names)
+        u1, u2 = [], []
+        t_wx = pe.tr(_assign_value(s[5], "wxgrid"), u1)
+        t_wy = pe.tr(_assign_value(s[6], "wygrid"), u2)
+        _expect(sorted(u1) == ["one", "wxj"] and sorted(u2) == ["one", "wyi"],
+                "weight grids are ones((ny, nx)) * wx[newaxis, :] and ones((ny, nx)) * wy[:, newaxis] (shape of the mesh)")
+        u3 = []
+        t_w = PyExpr({"wxgrid": "WX", "wygrid": "WY"}).tr(_assign_value(s[7], "self.wgrid"), u3)
+        _expect(sorted(u3) == ["WX", "WY"], "self.wgrid = wxgrid * wygrid")
+        one = fl(1.0)
+        term = t_w.replace("WX", t_wx).replace("WY", t_wy).replace("one", one)
+        out.append(("gen_wgrid_of", "(wxj : float) (wyi : float)", "float", term, "F.wgrid_of wxj wyi", ["wxj", "wyi"], "reflexivity."))
+
+        q = _nodoc(_func(tree, "QGauss2", "integrate_func").body)
+        _expect(len(q) == 15, "QGauss2.integrate_func has 15 statements (found %d)" % len(q))
+        _same(q[:5], """
+    if len(xrng) != 2 or len(yrng) != 2:
+        raise ValueError("xrng and yrng should be 2-element")
+    x1 = float(xrng[0])
+    x2 = float(xrng[1])
+    y1 = float(yrng[0])
+    y2 = float(yrng[1])
+    """, "QGauss2.integrate_func (prologue; range ends converted to python floats)")
+        fdef("xf1_of", ["x1", "x2"], {"x1": "x1", "x2": "x2"}, _assign_value(q[5], "xf1"), "xf1_of")
+        fdef("xf2_of", ["x1", "x2"], {"x1": "x1", "x2": "x2"}, _assign_value(q[6], "xf2"), "xf2_of")
+        fdef("yf1_of", ["x1", "x2"], {"y1": "x1", "y2": "x2"}, _assign_value(q[7], "yf1"), "xf1_of")
+        fdef("yf2_of", ["x1", "x2"], {"y1": "x1", "y2": "x2"}, _assign_value(q[8], "yf2"), "xf2_of")
+        fdef("xgrid_of", ["g", "f1", "f2"], {"self.xgrid": "g", "xf1": "f1", "xf2": "f2"}, _assign_value(q[9], "xgrid"), "grid_of")
+        fdef("ygrid_of", ["g", "f1", "f2"], {"self.ygrid": "g", "yf1": "f1", "yf2": "f2"}, _assign_value(q[10], "ygrid"), "grid_of")
+        _same(q[11:12], "zvals = func(xgrid, ygrid)\n", "zvals = func(xgrid, ygrid)")
+        fdef("integrand2_of", ["yvals", "wii"], {"zvals": "yvals", "self.wgrid": "wii"}, _assign_value(q[12], "integrand"), "integrand_of")
+        _same(q[13:14], "isum = integrand.sum()\n", "isum = integrand.sum()")
+        _expect(isinstance(q[14], ast.Return), "return xf1 * yf1 * isum")
+        fdef("result2_of", ["xf1", "yf1", "isum"], {"xf1": "xf1", "yf1": "yf1", "isum": "isum"}, q[14].value, "result2_of")
+
+    _section('QGauss2', _sec4)
+
+    def _sec5():
+        # ---- stat.interplin
+        st = ast.parse(open(stat_path).read())
+        ip = _nodoc(_func(st, None, "interplin").body)
+        _expect(len(ip) == 10, "interplin has 10 statements (found %d)" % len(ip))
+        _same(ip[:3], """
+    v = np.atleast_1d(vin)
+    x = np.atleast_1d(xin)
+    u = np.atleast_1d(uin)
+    """, "interplin (argument conversion)")
+        _expect(isinstance(ip[9], ast.Return), "interplin returns the chord formula")
+        # index selection, translated: xm = x.searchsorted(u) - 1; xm[xm >= size-1] = size-2; xm[xm < 0] = 0; xmp1 = xm + 1
+        zn = {"x.searchsorted(u)": "ss", "x.size": "size", "xm": "xm"}
+        t0 = _zexpr_py(_assign_value(ip[3], "xm"), zn)
+        steps = []
+        for wh, guard in ((ip[4], ip[5]), (ip[6], ip[7])):
+            _expect(isinstance(wh, ast.Assign) and ast.unparse(wh.targets[0]) in ("(w,)", "w,") and isinstance(wh.value, ast.Call)
+                    and ast.unparse(wh.value.func) == "np.where" and len(wh.value.args) == 1 and isinstance(wh.value.args[0], ast.Compare)
+                    and len(wh.value.args[0].ops) == 1 and type(wh.value.args[0].ops[0]) in _ZCMP, "(w,) = np.where(xm <op> e)")
+            cmp_ = wh.value.args[0]
+            _expect(isinstance(guard, ast.If) and ast.unparse(guard.test).replace(" ", "") == "w.size>0" and len(guard.body) == 1 and not guard.orelse
+                    and isinstance(guard.body[0], ast.Assign) and ast.unparse(guard.body[0].targets[0]) == "xm[w]", "if w.size > 0: xm[w] = e")
+            cond = _ZCMP[type(cmp_.ops[0])] % {"l": _zexpr_py(cmp_.left, zn), "r": _zexpr_py(cmp_.comparators[0], zn)}
+            steps.append("let xm := (if %s then %s else xm) in" % (cond, _zexpr_py(guard.body[0].value, zn)))
+        out.append(("gen_interp_index_of", "(ss : Z) (size : Z)", "Z", "(let xm := %s in %s xm)" % (t0, " ".join(steps)),
+                    "F.interp_index_of ss size", ["ss", "size"], "reflexivity."))
+        out.append(("gen_xmp1", "(xm : Z)", "Z", _zexpr_py(_assign_value(ip[8], "xmp1"), zn), "(xm + 1)%Z", ["xm"], "reflexivity."))
+        fdef("interp_formula", ["u", "x_m", "x_p", "v_m", "v_p"],
+             {"u": "u", "x[xm]": "x_m", "x[xmp1]": "x_p", "v[xm]": "v_m", "v[xmp1]": "v_p"}, ip[9].value, "interp_formula")
+    _section('stat.interplin', _sec5)
+
     return out
+
+
+ERRORS = []       # (section, message) of the sections that failed closed in the last translate()
+
+
+def _section(name, fn):
+    """one source section: a failure is recorded and the other sections are still translated (their ties are
+    still checked); the run reports every failed section as a broken tie"""
+    try:
+        fn()
+    except TranslateError as e:
+        ERRORS.append((name, str(e)))
+    except (AttributeError, IndexError, KeyError, TypeError, ValueError, SyntaxError) as e:
+        ERRORS.append((name, "unexpected source form (%s: %s)" % (type(e).__name__, e)))
+
+
+RAW = []          # items with their own definition text / statement / proof (polymorphic state machine)
 
 
 # ================================================================================ output
 PREAMBLE = ("From Coq Require Import PrimFloat ZArith Lia.\nFrom EsVerif.Common Require Import Base.\n"
-            "From EsVerif.C17 Require Import Model.\nLocal Open Scope Z_scope.\n")
+            "From EsVerif.C17 Require Import Model.\nLocal Open Scope Z_scope.\n"
+            "(* python's == between (None or an int) and an int *)\n"
+            "Definition py_eq_optZ (s : option Z) (n : Z) : bool := match s with Some k => Z.eqb k n | None => false end.\n")
 
 
 def translate(impl_root):
     """-> (definitions text, [(lemma statement, proof script, what)], constants).  Raises TranslateError."""
-    c_items, consts = translate_c(os.path.join(impl_root, "esutil", "integrate", "cgauleg_pywrap.c"))
+    del RAW[:]
+    del ERRORS[:]
+    c_res = []
+    _section("cgauleg_pywrap.c", lambda: c_res.append(translate_c(os.path.join(impl_root, "esutil", "integrate", "cgauleg_pywrap.c"))))
+    c_items, consts = c_res[0] if c_res else ([], {})
     p_items = translate_py(os.path.join(impl_root, "esutil", "integrate", "util.py"),
                            os.path.join(impl_root, "esutil", "stat", "util.py"))
     defs, lemmas = [], []
@@ -682,6 +932,9 @@ def translate(impl_root):
             if proof.startswith("unfold"):
                 proof = "intros. " + proof
         lemmas.append((stmt, proof, "%s = %s" % (name, model.split()[0])))
+    for it in RAW:
+        defs.append(it["def"])
+        lemmas.append((it["stmt"], it["proof"], it["what"]))
     return "\n".join(defs) + "\n", lemmas, consts
 
 
